@@ -12,6 +12,7 @@ import (
 	"fmt"
 	"sort"
 	"strings"
+	"time"
 
 	extv1 "k8s.io/apiextensions-apiserver/pkg/apis/apiextensions/v1"
 	metav1 "k8s.io/apimachinery/pkg/apis/meta/v1"
@@ -201,6 +202,8 @@ type Case struct {
 	ConvInvalid bool
 	// Shadows counts author properties named like machinery fields.
 	Shadows int
+	// Terminating: the XRD carries a deletionTimestamp and still holds its finalizers.
+	Terminating bool
 	Labels  []string
 }
 
@@ -702,6 +705,27 @@ func XRD(t *rapid.T) *Case {
 		panic(fmt.Sprintf("c11gen: generator bug: constructed collision %q, found %q", c.Collide, got))
 	}
 	return c
+}
+
+// Terminate returns the same case with the XRD being deleted: deletionTimestamp
+// set, the definition (and, if it offers a claim, the offered) controller's
+// finalizers still held. This is the state in which the XRD's controllers
+// still reconcile it, so nothing the property says about names, collisions or
+// the derived CRDs is relaxed by it.
+func Terminate(c *Case) *Case {
+	n := *c
+	x := c.XRD.DeepCopy()
+	ts := metav1.Date(2024, 5, 17, 10, 0, 0, 0, time.UTC)
+	x.DeletionTimestamp = &ts
+	x.DeletionGracePeriodSeconds = ptr.To[int64](0)
+	x.Finalizers = []string{"defined.apiextensions.crossplane.io"}
+	if x.Spec.ClaimNames != nil {
+		x.Finalizers = append(x.Finalizers, "offered.apiextensions.crossplane.io")
+	}
+	n.XRD = RoundTrip(x)
+	n.Terminating = true
+	n.Labels = append(append([]string{}, c.Labels...), "xrd:terminating")
+	return &n
 }
 
 // Collision names the claim name field that equals the composite's name of the
